@@ -13,6 +13,18 @@ lang_kernel_ascii_str!(c01_float_syntax_a4, any_ascii, 4, 6, float_, r_float_syn
 lang_kernel!(c01_true_a5, any_ascii, 5, 7, true_, r_true);
 lang_kernel!(c01_false_a6, any_ascii, 6, 8, false_, r_false);
 
+// ---- deeper bounds (thorough tier) ----
+lang_kernel_ascii_str!(c01_dec_int_u6, any_utf8, 6, 8, dec_int, r_dec_int);
+lang_kernel_ascii_str!(c01_hex_int_u7, any_utf8, 7, 9, hex_int, r_hex_int, 2);
+lang_kernel_ascii_str!(c01_oct_int_u7, any_utf8, 7, 9, oct_int, r_oct_int, 2);
+lang_kernel_ascii_str!(c01_bin_int_u7, any_utf8, 7, 9, bin_int, r_bin_int, 2);
+lang_kernel_ascii_str!(c01_zero_prefixable_int_u6, any_utf8, 6, 8, zero_prefixable_int, r_zero_prefixable_int);
+lang_kernel_ascii_str!(c01_frac_u6, any_utf8, 6, 8, frac, r_frac);
+lang_kernel_ascii_str!(c01_exp_u6, any_utf8, 6, 8, exp, r_exp);
+lang_kernel_ascii_str!(c01_dec_int_u10, any_utf8, 10, 12, dec_int, r_dec_int);
+lang_kernel_ascii_str!(c01_hex_int_u12, any_utf8, 12, 14, hex_int, r_hex_int, 2);
+lang_kernel_ascii_str!(c01_float_syntax_a5, any_ascii, 5, 7, float_, r_float_syntax);
+
 /// special-float: language and value (sign of inf, sign bit of nan)
 #[kani::proof]
 #[kani::unwind(7)]
